@@ -193,6 +193,22 @@ pub fn fault_sites() -> Vec<(String, Step)> {
             add(format!("{pre}.root.nth0.f{f}:zeroth"), Step::new(&format!("{pre}.root")).s("o", "nth").i("k", 0).i("f", f).i("d", 0).i("a", bigr));
             add(format!("{pre}.root.nth0.zero.f{f}:zeroth"), Step::new(&format!("{pre}.root")).s("o", "nth").i("k", 0).i("f", f).i("d", 0).i("a", zero));
         }
+        // empty / inverted random ranges and a zero bound (rand feature)
+        for f in 0..8 {
+            let w: Vec<u64> = vec![0x9e37_79b9, 0x7f4a_7c15, 0xffff_ffff, 0, 1];
+            if f == 0 {
+                add(format!("{pre}.rand.f0:zero-bound"), Step::new(&format!("{pre}.rand")).i("f", 0).i("d", 0).i("a", zero).i("b", zero).l("v", w.clone()));
+            } else {
+                add(format!("{pre}.rand.f{f}:inverted-range"), Step::new(&format!("{pre}.rand")).i("f", f).i("d", 0).i("a", bigr).i("b", if pre == "u" { small } else { small }).l("v", w.clone()));
+                if f != 3 && f != 6 {
+                    add(format!("{pre}.rand.f{f}:empty-range"), Step::new(&format!("{pre}.rand")).i("f", f).i("d", 0).i("a", bigr).i("b", bigr).l("v", w.clone()));
+                    add(format!("{pre}.rand.f{f}:empty-range-zero"), Step::new(&format!("{pre}.rand")).i("f", f).i("d", 0).i("a", zero).i("b", zero).l("v", w.clone()));
+                } else {
+                    add(format!("neg:{pre}.rand.f{f}.single-value"), Step::new(&format!("{pre}.rand")).i("f", f).i("d", 0).i("a", bigr).i("b", bigr).l("v", w.clone()));
+                }
+                add(format!("neg:{pre}.rand.f{f}.valid"), Step::new(&format!("{pre}.rand")).i("f", f).i("d", 0).i("a", zero).i("b", bigr).l("v", w.clone()));
+            }
+        }
         // sites that must NOT fail
         add(format!("neg:{pre}.int.is_multiple_of.zero"), Step::new(&format!("{pre}.int")).s("o", "is_multiple_of").i("d", 0).i("a", bigr).i("b", zero));
         add(format!("neg:{pre}.int.gcd00"), Step::new(&format!("{pre}.int")).s("o", "gcd").i("d", 0).i("a", zero).i("b", zero));
